@@ -7,7 +7,8 @@ class of a violated rule, no rule of an earlier stage being violated (core only)
 -/
 import AutomataVerif.Proofs.ValidateAll
 
-namespace AV
+namespace AV.VA
+open AV
 
 set_option linter.unusedSectionVars false
 set_option linter.unusedSimpArgs false
@@ -40,6 +41,7 @@ theorem RuleSys.Correct.corrupt_raises {δ ρ : Type} {S : RuleSys δ ρ} {valid
   · exact absurd hv (hmin r hlt)
 
 namespace DFA
+open AV.DFA
 inductive Rule | missingRow | missingSymbol | unknownSymbol | unknownEndState | badInitial | badFinal
   deriving DecidableEq, Repr
 
@@ -175,6 +177,7 @@ theorem rules_correct : (rules : RuleSys (DFA σ α) Rule).Correct validate wher
 
 end DFA
 namespace NFA
+open AV.NFA
 inductive Rule | unknownSymbol | unknownEndState | badInitial | initialNoRow | badFinal
   deriving DecidableEq, Repr
 
@@ -1528,4 +1531,4 @@ theorem rules_correct : (rules : RuleSys (MNTM σ γ) TmRule).Correct validate w
 
 end MNTM
 
-end AV
+end AV.VA
